@@ -695,4 +695,150 @@ theorem view_eq {ps : PrivSet} {gs : GSet} (h : Refines ps gs) : ps.view = gs.vi
         exact ⟨p, by rw [h]; simpa using hg⟩
 
 
+
+theorem any_eq_mem_map (privs : List Priv) (ctor : Priv → Grant) (g : Grant) :
+    (privs.any fun p => decide (g = ctor p)) = decide (g ∈ privs.map ctor) := by
+  apply bool_eq_of_iff
+  simp only [List.any_eq_true, decide_eq_true_eq, List.mem_map]
+  constructor
+  · rintro ⟨p, hp, rfl⟩; exact ⟨p, hp, rfl⟩
+  · rintro ⟨p, hp, rfl⟩; exact ⟨p, hp, rfl⟩
+
+theorem any_eq_mem_map_s (names : List String) (ctor : String → Grant) (g : Grant) :
+    (names.any fun p => decide (g = ctor p)) = decide (g ∈ names.map ctor) := by
+  apply bool_eq_of_iff
+  simp only [List.any_eq_true, decide_eq_true_eq, List.mem_map]
+  constructor
+  · rintro ⟨p, hp, rfl⟩; exact ⟨p, hp, rfl⟩
+  · rintro ⟨p, hp, rfl⟩; exact ⟨p, hp, rfl⟩
+
+theorem refines_add {ps : PrivSet} {gs : GSet} (h : Refines ps gs) (ps' : PrivSet) (L : List Grant)
+    (hh : ∀ g, ps'.holds g = (ps.holds g || decide (g ∈ L))) : Refines ps' (gs ++ L) := by
+  intro g; rw [hh, h g]; simp [List.mem_append]
+
+theorem refines_filter {ps : PrivSet} {gs : GSet} (h : Refines ps gs) (ps' : PrivSet) (P : Grant → Bool)
+    (hh : ∀ g, ps'.holds g = (ps.holds g && P g)) : Refines ps' (gs.filter P) := by
+  intro g; rw [hh, h g]
+  apply bool_eq_of_iff
+  simp [List.mem_filter]
+
+theorem refines_empty : Refines implPS.empty specPS.empty := by
+  intro g; cases g <;> simp [implPS, specPS, PrivSet.holds, mget]
+
+theorem refines_addGlobal {ps gs} (h : Refines ps gs) (privs : List Priv) :
+    Refines (implPS.addGlobal ps privs) (specPS.addGlobal gs privs) :=
+  refines_add h _ _ (PrivSet.holds_addGlobal ps privs)
+
+theorem refines_addDynamic {ps gs} (h : Refines ps gs) (wgo : Bool) (names : List String) :
+    Refines (implPS.addDynamic ps wgo names) (specPS.addDynamic gs wgo names) :=
+  refines_add h _ _ (PrivSet.holds_addDynamic ps wgo names)
+
+theorem refines_addDb {ps gs} (h : Refines ps gs) (d : String) (privs : List Priv) :
+    Refines (implPS.addDb ps d privs) (specPS.addDb gs d privs) :=
+  refines_add h _ _ (PrivSet.holds_addDb ps d privs)
+
+theorem refines_addTbl {ps gs} (h : Refines ps gs) (d t : String) (privs : List Priv) :
+    Refines (implPS.addTbl ps d t privs) (specPS.addTbl gs d t privs) :=
+  refines_add h _ _ (PrivSet.holds_addTbl ps d t privs)
+
+theorem refines_addRtn {ps gs} (h : Refines ps gs) (d r : String) (b : Bool) (privs : List Priv) :
+    Refines (implPS.addRtn ps d r b privs) (specPS.addRtn gs d r b privs) :=
+  refines_add h _ _ (PrivSet.holds_addRtn ps d r b privs)
+
+theorem refines_remGlobal {ps gs} (h : Refines ps gs) (privs : List Priv) :
+    Refines (implPS.remGlobal ps privs) (specPS.remGlobal gs privs) :=
+  refines_filter h _ _ (fun g => by rw [any_eq_mem_map]; exact PrivSet.holds_remGlobal ps privs g)
+
+theorem refines_remDynamic {ps gs} (h : Refines ps gs) (names : List String) :
+    Refines (implPS.remDynamic ps names) (specPS.remDynamic gs names) :=
+  refines_filter h _ _ (fun g => by rw [any_eq_mem_map_s]; exact PrivSet.holds_remDynamic ps names g)
+
+theorem refines_remTbl {ps gs} (h : Refines ps gs) (d t : String) (privs : List Priv) :
+    Refines (implPS.remTbl ps d t privs) (specPS.remTbl gs d t privs) :=
+  refines_filter h _ _ (fun g => by rw [any_eq_mem_map]; exact PrivSet.holds_remTbl ps d t privs g)
+
+theorem refines_remRtn {ps gs} (h : Refines ps gs) (d r : String) (b : Bool) (privs : List Priv) :
+    Refines (implPS.remRtn ps d r b privs) (specPS.remRtn gs d r b privs) :=
+  refines_filter h _ _ (fun g => by rw [any_eq_mem_map]; exact PrivSet.holds_remRtn ps d r b privs g)
+
+theorem refines_clearGlobal {ps gs} (h : Refines ps gs) :
+    Refines (implPS.clearGlobal ps) (specPS.clearGlobal gs) :=
+  refines_filter h _ _ (PrivSet.holds_clearGlobal ps)
+
+theorem refines_clearTbl {ps gs} (h : Refines ps gs) (d t : String) :
+    Refines (implPS.clearTbl ps d t) (specPS.clearTbl gs d t) :=
+  refines_filter h _ _ (PrivSet.holds_clearTbl ps d t)
+
+theorem refines_union {a b : PrivSet} {ga gb : GSet} (ha : Refines a ga) (hb : Refines b gb) :
+    Refines (implPS.union a b) (specPS.union ga gb) := by
+  intro g
+  show (a.union b).holds g = decide (g ∈ ga ++ gb)
+  rw [PrivSet.holds_union, ha g, hb g]; simp [List.mem_append]
+
+/-- The account holds a table- or routine-level grant inside database `d`. -/
+def holdsBelow (ps : PrivSet) (d : String) : Prop := ∃ g, g.belowDb (lower d) = true ∧ ps.holds g = true
+
+theorem atDb_split (g : Grant) (k : String) : g.atDb k = (g.isDbLevel k || g.belowDb k) := by
+  cases g <;> simp [Grant.atDb, Grant.isDbLevel, Grant.belowDb]
+
+/-- Database-level REVOKE of single privileges refines the Spec when the account holds nothing below
+the database (this is the guard of the known defect). -/
+theorem refines_remDb_partial {ps gs} (h : Refines ps gs) (d : String) (privs : List Priv)
+    (hg : ¬ holdsBelow ps d) : Refines (implPS.remDb ps d privs) (specPS.remDb gs d privs) := by
+  apply refines_filter h
+  intro g
+  rw [any_eq_mem_map]
+  show (ps.remDb d privs).holds g = _
+  rw [PrivSet.holds_remDb]
+  by_cases he : ps.dbEmptied d privs = true
+  · simp only [he, if_true]
+    -- the entry was deleted: every database-level grant it held was named, nothing lives below it
+    by_cases hgd : g.isDbLevel (lower d) = true
+    · cases g <;> simp [Grant.isDbLevel] at hgd
+      case db d' p =>
+        subst hgd
+        simp only [Grant.atDb, decide_true, Bool.not_true, Bool.and_false]
+        unfold PrivSet.dbEmptied at he
+        cases hm : mget ps.dbs (lower d) with
+        | none => simp [PrivSet.holds, hm]
+        | some s =>
+          rw [hm] at he
+          simp only [isEmpty_iff_forall_not_mem, mem_premAll] at he
+          by_cases hp : p ∈ s.privs
+          · have : p ∈ privs := Classical.byContradiction (fun hn => he p ⟨hp, hn⟩)
+            simp [this]
+          · simp [PrivSet.holds, hm, hp]
+    · have hgd' : g.isDbLevel (lower d) = false := by simpa using hgd
+      have hnm : decide (g ∈ privs.map (Grant.db (lower d))) = false := by
+        simp only [decide_eq_false_iff_not, List.mem_map, not_exists, not_and]
+        rintro p _ rfl
+        simp [Grant.isDbLevel] at hgd
+      rw [hnm, atDb_split, hgd']
+      by_cases hb : g.belowDb (lower d) = true
+      · have : ps.holds g = false := by
+          cases hh : ps.holds g with
+          | false => rfl
+          | true => exact absurd ⟨g, hb, hh⟩ hg
+        simp [this]
+      · have hb' : g.belowDb (lower d) = false := by simpa using hb
+        simp [hb']
+  · have he' : ps.dbEmptied d privs = false := by simpa using he
+    simp [he']
+
+theorem refines_clearDb_partial {ps gs} (h : Refines ps gs) (d : String)
+    (hg : ¬ holdsBelow ps d) : Refines (implPS.clearDb ps d) (specPS.clearDb gs d) := by
+  apply refines_filter h
+  intro g
+  show (ps.clearDb d).holds g = _
+  rw [PrivSet.holds_clearDb, atDb_split]
+  by_cases hb : g.belowDb (lower d) = true
+  · have : ps.holds g = false := by
+      cases hh : ps.holds g with
+      | false => rfl
+      | true => exact absurd ⟨g, hb, hh⟩ hg
+    simp [this]
+  · have hb' : g.belowDb (lower d) = false := by simpa using hb
+    simp [hb']
+
+
 end Gms.Priv
